@@ -200,6 +200,9 @@ macro_rules! from_f32_random {
             };
             let toward_zero = exp - exp.signum();
             let ok = got == exp || (tie && got == toward_zero);
+            if tie && ok && exp.abs() > 100 {
+                acc.sample(ctx, concat!("from_f32_midpoint:", $name), || json!({"type": $name, "x": x, "x_bits": format!("{:#010x}", x.to_bits()), "library_bits": got, "away_from_zero_neighbour": exp}));
+            }
             if !ok {
                 // one float per sign is known to be mis-rounded: the largest float below half an epsilon
                 let half_below = f32::from_bits((0.5f32 / (1u32 << $fb) as f32).to_bits() - 1);
@@ -429,6 +432,9 @@ pub fn run(ctx: &mut Ctx, acc: &mut Acc) {
                     acc.mismatch(ctx, "Int24", "new/checked_new", None, format!("x={}", xi), json!({"new": g, "checked_new": c, "expected_saturated": exp}));
                 }
                 acc.count(if in_range { "int24:new_in_range" } else { "int24:new_saturating" }, 1);
+                if !in_range {
+                    acc.sample(ctx, "int24_saturation", || json!({"Int24::new": xi, "to_i32": g, "checked_new": c}));
+                }
                 acc.class(2, 0, (in_range as u64) << 1 | (xi < 0) as u64);
             }
             if x >= 0 {
